@@ -123,7 +123,7 @@ theorem splitAtLF_none_noLF {bs p : List UInt8} (h : splitAtLF bs = (p, none)) :
           rwa [List.getLast?_cons_of_ne_nil (by simp)]
 
 
-/-! ### `readUntil`, `readByte`, `readRaw` as functions of `(pre, firstFail)` -/
+/-! ### `readUntil`, `nextByte`, `readRaw` as functions of `(pre, firstFail)` -/
 
 def untilSpec (bs : List UInt8) (ff : Option IoKind) (acc : List UInt8) :
     Except IoKind (List UInt8) × List UInt8 :=
@@ -165,53 +165,304 @@ theorem readUntil_spec (s : Sched) (acc : List UInt8) :
               | none => rw [hf] at this; simpa [List.append_assoc] using this
               | some k => rw [hf] at this; simpa [List.append_assoc] using this
 
-def byteSpec (bs : List UInt8) (ff : Option IoKind) : Except IoKind UInt8 × List UInt8 :=
+theorem splitAtLF_concat (bs : List UInt8) :
+    (splitAtLF bs).1 ++ ((splitAtLF bs).2.getD []) = bs := by
+  induction bs with
+  | nil => simp [splitAtLF]
+  | cons x xs ih =>
+    simp only [splitAtLF]
+    by_cases hx : (x == 0x0A) = true
+    · simp [hx]
+    · simp only [hx, Bool.false_eq_true, if_false, List.cons_append]
+      rw [ih]
+
+/-- bytes are conserved by `read_until`. -/
+theorem untilSpec_conserve {bs : List UInt8} {ff : Option IoKind} {acc b rest : List UInt8}
+    (h : untilSpec bs ff acc = (.ok b, rest)) : ∃ c, b = acc ++ c ∧ bs = c ++ rest := by
+  unfold untilSpec at h
+  have hc := splitAtLF_concat bs
+  cases hs : splitAtLF bs with
+  | mk p o =>
+    rw [hs] at h hc
+    cases o with
+    | some r =>
+      simp at h
+      exact ⟨p, h.1.symm, by rw [← h.2]; simpa using hc.symm⟩
+    | none =>
+      cases ff with
+      | none =>
+        simp at h
+        exact ⟨p, h.1.symm, by rw [h.2]; simpa using hc.symm⟩
+      | some k => simp at h
+
+def nextByteSpec (bs : List UInt8) (ff : Option IoKind) : Except IoKind (Option UInt8) × List UInt8 :=
   match bs with
-  | b :: r => (.ok b, r)
+  | b :: r => (.ok (some b), r)
   | [] =>
     match ff with
-    | none => (.error .unexpectedEof, [])
+    | none => (.ok none, [])
     | some k => (.error k, [])
 
-theorem readByte_spec (s : Sched) :
-    (readByte s).1 = (byteSpec s.pre s.firstFail).1 ∧
-    (rdIsOk (readByte s).1 = true →
-      Sched.pre (readByte s).2 = (byteSpec s.pre s.firstFail).2 ∧
-      Sched.firstFail (readByte s).2 = s.firstFail) := by
+theorem nextByte_spec (s : Sched) :
+    (nextByte s).1 = (nextByteSpec s.pre s.firstFail).1 ∧
+    (rdIsOk (nextByte s).1 = true →
+      Sched.pre (nextByte s).2 = (nextByteSpec s.pre s.firstFail).2 ∧
+      Sched.firstFail (nextByte s).2 = s.firstFail) := by
   induction s with
-  | nil => simp [readByte, byteSpec, Sched.pre, Sched.firstFail, rdIsOk]
+  | nil => simp [nextByte, nextByteSpec, Sched.pre, Sched.firstFail, rdIsOk]
   | cons e s ih =>
     cases e with
-    | intr => simpa [readByte, Sched.pre, Sched.firstFail] using ih
-    | fail k => simp [readByte, byteSpec, Sched.pre, Sched.firstFail, rdIsOk]
+    | intr => simpa [nextByte, Sched.pre, Sched.firstFail] using ih
+    | fail k => simp [nextByte, nextByteSpec, Sched.pre, Sched.firstFail, rdIsOk]
     | chunk bs =>
       cases bs with
-      | nil => simpa [readByte, Sched.pre, Sched.firstFail] using ih
-      | cons b r => simp [readByte, byteSpec, Sched.pre, Sched.firstFail, pre_pushRest, firstFail_pushRest]
+      | nil => simpa [nextByte, Sched.pre, Sched.firstFail] using ih
+      | cons b r => simp [nextByte, nextByteSpec, Sched.pre, Sched.firstFail, pre_pushRest, firstFail_pushRest]
+
+/-- the `loop` of `Decoder::read_line` on the byte stream (mirrors `readLineLoop`). -/
+def rawLoop (enc : Encoding) (ff : Option IoKind) : Nat → List UInt8 → List UInt8 →
+    Except IoKind (List UInt8) × List UInt8
+  | 0, bs, buf => (.ok buf, bs)
+  | fuel + 1, bs, buf =>
+    match untilSpec bs ff buf with
+    | (.error k, _) => (.error k, [])
+    | (.ok buf', rest) =>
+      if buf'.length = buf.length then (.ok buf', rest)
+      else if !endsWithLF buf' then (.ok buf', rest)
+      else
+        let body := buf'.dropLast
+        match enc with
+        | .utf8 => (.ok buf', rest)
+        | .utf16be =>
+          if body.length % 2 == 1 && body.getLast? == some 0 then (.ok buf', rest)
+          else rawLoop enc ff fuel rest buf'
+        | .utf16le =>
+          if body.length % 2 == 0 then
+            match nextByteSpec rest ff with
+            | (.error k, _) => (.error k, [])
+            | (.ok none, rest') => (.ok buf', rest')
+            | (.ok (some b), rest') =>
+              if b == 0 then (.ok (buf' ++ [b]), rest')
+              else rawLoop enc ff fuel rest' (buf' ++ [b])
+          else rawLoop enc ff fuel rest buf'
+
+/-- "same result; on success the same bytes and the same fault are still ahead". -/
+def SpecRel {α : Type} (ff : Option IoKind) (x : Except IoKind α × Sched) (y : Except IoKind α × List UInt8) : Prop :=
+  x.1 = y.1 ∧ (rdIsOk x.1 = true → Sched.pre x.2 = y.2 ∧ Sched.firstFail x.2 = ff)
+
+theorem SpecRel.error {α : Type} (ff : Option IoKind) (k : IoKind) (s : Sched) (r : List UInt8) :
+    SpecRel (α := α) ff (.error k, s) (.error k, r) := ⟨rfl, fun h => by simp [rdIsOk] at h⟩
+
+theorem SpecRel.ok {α : Type} (ff : Option IoKind) (a : α) (s : Sched) (r : List UInt8)
+    (hp : Sched.pre s = r) (hf : Sched.firstFail s = ff) : SpecRel ff (.ok a, s) (.ok a, r) :=
+  ⟨rfl, fun _ => ⟨hp, hf⟩⟩
+
+theorem readLineLoop_spec (enc : Encoding) (f : Nat) (s : Sched) (buf : List UInt8) :
+    SpecRel s.firstFail (readLineLoop enc f s buf) (rawLoop enc s.firstFail f s.pre buf) := by
+  induction f generalizing s buf with
+  | zero => exact SpecRel.ok _ _ _ _ rfl rfl
+  | succ n ih =>
+    obtain ⟨h1, h2⟩ := readUntil_spec s buf
+    simp only [readLineLoop, rawLoop]
+    cases hu : readUntil s buf with
+    | mk r s' =>
+      cases hv : untilSpec s.pre s.firstFail buf with
+      | mk r2 rest =>
+        rw [hu, hv] at h1; rw [hu, hv] at h2
+        simp only at h1 h2
+        subst h1
+        cases r with
+        | error k => exact SpecRel.error _ _ _ _
+        | ok buf' =>
+          obtain ⟨hp, hf⟩ := h2 rfl
+          have ih' := ih s' buf'
+          rw [hp, hf] at ih'
+          simp only []
+          by_cases c1 : buf'.length = buf.length
+          · simp only [c1, if_true]; exact SpecRel.ok _ _ _ _ hp hf
+          · simp only [c1, if_false]
+            by_cases c2 : (!endsWithLF buf') = true
+            · simp only [c2, if_true]; exact SpecRel.ok _ _ _ _ hp hf
+            · simp only [c2, Bool.false_eq_true, if_false]
+              cases enc with
+              | utf8 => exact SpecRel.ok _ _ _ _ hp hf
+              | utf16be =>
+                simp only []
+                split
+                · exact SpecRel.ok _ _ _ _ hp hf
+                · exact ih'
+              | utf16le =>
+                simp only []
+                split
+                · obtain ⟨g1, g2⟩ := nextByte_spec s'
+                  rw [hp, hf] at g1; rw [hp, hf] at g2
+                  cases hb : nextByte s' with
+                  | mk rb sb =>
+                    cases hc : nextByteSpec rest s.firstFail with
+                    | mk rc restc =>
+                      rw [hb, hc] at g1; rw [hb, hc] at g2
+                      simp only at g1 g2
+                      subst g1
+                      cases rb with
+                      | error k => exact SpecRel.error _ _ _ _
+                      | ok ob =>
+                        obtain ⟨gp, gf⟩ := g2 rfl
+                        cases ob with
+                        | none => exact SpecRel.ok _ _ _ _ gp gf
+                        | some b =>
+                          simp only []
+                          split
+                          · exact SpecRel.ok _ _ _ _ gp gf
+                          · have := ih sb (buf' ++ [b])
+                            rw [gp, gf] at this
+                            exact this
+                · exact ih'
+
+/-- what the loop returned and what is left are a split of what it was given. -/
+theorem rawLoop_conserve (enc : Encoding) (ff : Option IoKind) (f : Nat) (bs buf b rest : List UInt8)
+    (h : rawLoop enc ff f bs buf = (.ok b, rest)) : ∃ c, b = buf ++ c ∧ bs = c ++ rest := by
+  induction f generalizing bs buf with
+  | zero => simp [rawLoop] at h; exact ⟨[], by simp [h.1], by simp [h.2]⟩
+  | succ n ih =>
+    simp only [rawLoop] at h
+    cases hv : untilSpec bs ff buf with
+    | mk r2 rest0 =>
+      rw [hv] at h
+      cases r2 with
+      | error k => simp at h
+      | ok buf' =>
+        obtain ⟨c0, e1, e2⟩ := untilSpec_conserve hv
+        have fin : (Except.ok buf', rest0) = ((Except.ok b : Except IoKind (List UInt8)), rest) →
+            ∃ c, b = buf ++ c ∧ bs = c ++ rest := by
+          intro hh
+          simp at hh
+          exact ⟨c0, by rw [← hh.1]; exact e1, by rw [← hh.2]; exact e2⟩
+        have cont : rawLoop enc ff n rest0 buf' = (Except.ok b, rest) →
+            ∃ c, b = buf ++ c ∧ bs = c ++ rest := by
+          intro hh
+          obtain ⟨c1, d1, d2⟩ := ih rest0 buf' hh
+          exact ⟨c0 ++ c1, by rw [d1, e1, List.append_assoc], by rw [e2, d2, List.append_assoc]⟩
+        simp only [] at h
+        split at h
+        · exact fin h
+        · split at h
+          · exact fin h
+          · cases enc with
+            | utf8 => exact fin h
+            | utf16be =>
+              simp only [] at h
+              split at h
+              · exact fin h
+              · exact cont h
+            | utf16le =>
+              simp only [] at h
+              split at h
+              · cases hc : nextByteSpec rest0 ff with
+                | mk rc restc =>
+                  rw [hc] at h
+                  unfold nextByteSpec at hc
+                  cases rest0 with
+                  | nil =>
+                    cases ff with
+                    | none =>
+                      simp at hc
+                      obtain ⟨hc1, hc2⟩ := hc
+                      subst hc1; subst hc2
+                      simp at h
+                      exact ⟨c0, by rw [← h.1]; exact e1, by rw [h.2]; exact e2⟩
+                    | some k => simp at hc; obtain ⟨hc1, _⟩ := hc; subst hc1; simp at h
+                  | cons x xs =>
+                    simp at hc
+                    obtain ⟨hc1, hc2⟩ := hc
+                    subst hc1; subst hc2
+                    simp only [] at h
+                    split at h
+                    · simp at h
+                      exact ⟨c0 ++ [x], by rw [← h.1, e1, List.append_assoc],
+                        by rw [e2, ← h.2]; simp⟩
+                    · obtain ⟨c1, d1, d2⟩ := ih xs (buf' ++ [x]) h
+                      exact ⟨c0 ++ x :: c1, by rw [d1, e1]; simp, by rw [e2, d2]; simp⟩
+              · exact cont h
+
+theorem rawLoop_fuel (enc : Encoding) (ff : Option IoKind) (f1 f2 : Nat) (bs buf : List UInt8)
+    (h1 : bs.length < f1) (h2 : bs.length < f2) : rawLoop enc ff f1 bs buf = rawLoop enc ff f2 bs buf := by
+  induction f1 generalizing f2 bs buf with
+  | zero => omega
+  | succ n ih =>
+    cases f2 with
+    | zero => omega
+    | succ m =>
+      simp only [rawLoop]
+      cases hv : untilSpec bs ff buf with
+      | mk r2 rest0 =>
+        cases r2 with
+        | error k => rfl
+        | ok buf' =>
+          obtain ⟨c0, e1, e2⟩ := untilSpec_conserve hv
+          simp only []
+          by_cases c1 : buf'.length = buf.length
+          · simp only [c1, if_true]
+          · have hlt : rest0.length < bs.length := by
+              have : c0 ≠ [] := by
+                intro e; subst e; simp at e1; subst e1; exact c1 rfl
+              have := List.length_pos_iff.mpr this
+              rw [e2]; simp; omega
+            simp only [c1, if_false]
+            split
+            · rfl
+            · cases enc with
+              | utf8 => rfl
+              | utf16be =>
+                simp only []
+                split
+                · rfl
+                · exact ih m rest0 buf' (by omega) (by omega)
+              | utf16le =>
+                simp only []
+                split
+                · cases hc : nextByteSpec rest0 ff with
+                  | mk rc restc =>
+                    cases rc with
+                    | error k => rfl
+                    | ok ob =>
+                      cases ob with
+                      | none => rfl
+                      | some b =>
+                        have : restc.length < rest0.length := by
+                          unfold nextByteSpec at hc
+                          cases rest0 with
+                          | nil => cases ff <;> simp at hc
+                          | cons x xs => simp at hc; rw [← hc.2]; simp
+                        simp only []
+                        split
+                        · rfl
+                        · exact ih m restc (buf' ++ [b]) (by omega) (by omega)
+                · exact ih m rest0 buf' (by omega) (by omega)
 
 /-- `Decoder::read_line` on the byte stream (mirrors `readRaw`). -/
 def rawSpec (enc : Encoding) (bs : List UInt8) (ff : Option IoKind) :
     Except IoKind (Option (List UInt8)) × List UInt8 :=
-  match untilSpec bs ff [] with
+  match rawLoop enc ff (bs.length + 1) bs [] with
   | (.error k, _) => (.error k, [])
-  | (.ok buf, rest) =>
-    if buf.isEmpty then (.ok none, rest)
-    else if enc == .utf16le && endsWithLF buf then
-      match byteSpec rest ff with
-      | (.error k, _) => (.error k, [])
-      | (.ok b, rest') => (.ok (some (buf ++ [b])), rest')
-    else (.ok (some buf), rest)
+  | (.ok buf, rest) => (if buf.isEmpty then .ok none else .ok (some buf), rest)
 
-theorem readRaw_spec (enc : Encoding) (s : Sched) :
-    (readRaw enc s).1 = (rawSpec enc s.pre s.firstFail).1 ∧
-    (rdIsOk (readRaw enc s).1 = true →
-      Sched.pre (readRaw enc s).2 = (rawSpec enc s.pre s.firstFail).2 ∧
-      Sched.firstFail (readRaw enc s).2 = s.firstFail) := by
-  obtain ⟨h1, h2⟩ := readUntil_spec s []
-  unfold readRaw rawSpec
-  cases hu : readUntil s [] with
+theorem pre_length_le_size (s : Sched) : (Sched.pre s).length ≤ Sched.size s := by
+  induction s with
+  | nil => simp [Sched.pre, Sched.size]
+  | cons e s ih =>
+    cases e <;> simp [Sched.pre, Sched.size, Ev.size] <;> omega
+
+theorem readRawFuel_spec (enc : Encoding) (f : Nat) (s : Sched) (hf : s.pre.length < f) :
+    (readRawFuel enc f s).1 = (rawSpec enc s.pre s.firstFail).1 ∧
+    (rdIsOk (readRawFuel enc f s).1 = true →
+      Sched.pre (readRawFuel enc f s).2 = (rawSpec enc s.pre s.firstFail).2 ∧
+      Sched.firstFail (readRawFuel enc f s).2 = s.firstFail) := by
+  obtain ⟨h1, h2⟩ := readLineLoop_spec enc f s []
+  rw [rawLoop_fuel enc _ f (s.pre.length + 1) _ _ hf (by omega)] at h1 h2
+  unfold readRawFuel rawSpec
+  cases hu : readLineLoop enc f s [] with
   | mk r s' =>
-    cases hv : untilSpec s.pre s.firstFail [] with
+    cases hv : rawLoop enc s.firstFail (s.pre.length + 1) s.pre [] with
     | mk r2 rest =>
       rw [hu, hv] at h1; rw [hu, hv] at h2
       simp only at h1 h2
@@ -221,25 +472,37 @@ theorem readRaw_spec (enc : Encoding) (s : Sched) :
       | ok buf =>
         obtain ⟨hp, hf⟩ := h2 rfl
         simp only []
-        by_cases he : buf.isEmpty = true
-        · simp [he, hp, hf]
-        · simp only [he, Bool.false_eq_true, if_false]
-          by_cases hl : (enc == Encoding.utf16le && endsWithLF buf) = true
-          · simp only [hl, if_true]
-            obtain ⟨g1, g2⟩ := readByte_spec s'
-            rw [hp, hf] at g1; rw [hp, hf] at g2
-            cases hb : readByte s' with
-            | mk rb sb =>
-              cases hc : byteSpec rest s.firstFail with
-              | mk rc restc =>
-                rw [hb, hc] at g1; rw [hb, hc] at g2
-                simp only at g1 g2
-                subst g1
-                cases rb with
-                | error k => simp [rdIsOk]
-                | ok b => exact ⟨rfl, fun _ => g2 rfl⟩
-          · simp [hl, hp, hf]
+        by_cases he : buf.isEmpty = true <;> simp [he, hp, hf]
 
+theorem readRaw_spec (enc : Encoding) (s : Sched) :
+    (readRaw enc s).1 = (rawSpec enc s.pre s.firstFail).1 ∧
+    (rdIsOk (readRaw enc s).1 = true →
+      Sched.pre (readRaw enc s).2 = (rawSpec enc s.pre s.firstFail).2 ∧
+      Sched.firstFail (readRaw enc s).2 = s.firstFail) :=
+  readRawFuel_spec enc _ s (by have := pre_length_le_size s; omega)
+
+theorem rawSpec_some_lt {enc : Encoding} {bs : List UInt8} {ff : Option IoKind} {buf rest : List UInt8}
+    (h : rawSpec enc bs ff = (.ok (some buf), rest)) : rest.length < bs.length := by
+  unfold rawSpec at h
+  cases hv : rawLoop enc ff (bs.length + 1) bs [] with
+  | mk r rest0 =>
+    rw [hv] at h
+    cases r with
+    | error k => simp at h
+    | ok b =>
+      obtain ⟨c, e1, e2⟩ := rawLoop_conserve enc ff _ _ _ _ _ hv
+      simp only [] at h
+      by_cases he : b.isEmpty = true
+      · simp [he] at h
+      · simp [he] at h
+        obtain ⟨hb, hr⟩ := h
+        subst hr
+        have : 0 < c.length := by
+          simp at e1; subst e1
+          cases b with
+          | nil => simp at he
+          | cons _ _ => simp
+        rw [e2]; simp; omega
 
 /-! ### `readAll` as a function of `(pre, firstFail)` -/
 
@@ -258,14 +521,14 @@ def linesSpecFuel (enc : Encoding) (ff : Option IoKind) : Nat → List UInt8 →
 def linesSpec (enc : Encoding) (ff : Option IoKind) (bs : List UInt8) : List Str × Option IoKind :=
   linesSpecFuel enc ff (bs.length + 1) bs
 
-theorem readAllFuel_spec (enc : Encoding) (f : Nat) (s : Sched) :
+theorem readAllFuel_spec (enc : Encoding) (f : Nat) (s : Sched) (hf : s.pre.length < f) :
     readAllFuel enc f s = linesSpecFuel enc s.firstFail f s.pre := by
   induction f generalizing s with
   | zero => rfl
   | succ n ih =>
-    obtain ⟨h1, h2⟩ := readRaw_spec enc s
+    obtain ⟨h1, h2⟩ := readRawFuel_spec enc (n + 1) s hf
     simp only [readAllFuel, linesSpecFuel]
-    cases hr : readRaw enc s with
+    cases hr : readRawFuel enc (n + 1) s with
     | mk r s' =>
       cases hq : rawSpec enc s.pre s.firstFail with
       | mk r2 rest =>
@@ -278,74 +541,10 @@ theorem readAllFuel_spec (enc : Encoding) (f : Nat) (s : Sched) :
           cases o with
           | none => rfl
           | some buf =>
-            obtain ⟨hp, hf⟩ := h2 rfl
+            obtain ⟨hp, hf'⟩ := h2 rfl
+            have hlt := rawSpec_some_lt hq
             simp only []
-            rw [ih s', hp, hf]
-
-theorem untilSpec_ok_lt {bs : List UInt8} {ff : Option IoKind} {buf rest : List UInt8}
-    (h : untilSpec bs ff [] = (.ok buf, rest)) (hne : buf.isEmpty = false) :
-    rest.length < bs.length ∧ (endsWithLF buf = false → rest = []) := by
-  unfold untilSpec at h
-  cases hs : splitAtLF bs with
-  | mk p o =>
-    rw [hs] at h
-    have hl := splitAtLF_length bs
-    rw [hs] at hl
-    cases o with
-    | some r =>
-      simp at h
-      obtain ⟨h1, h2⟩ := h
-      subst h1; subst h2
-      have := splitAtLF_some_ne_nil hs
-      have he := splitAtLF_some_ends hs
-      have : 0 < p.length := List.length_pos_iff.mpr this
-      simp at hl
-      refine ⟨by omega, ?_⟩
-      intro hc; rw [he] at hc; cases hc
-    | none =>
-      cases ff with
-      | none =>
-        simp at h
-        obtain ⟨h1, h2⟩ := h
-        subst h1; subst h2
-        have : 0 < p.length := by
-          cases p with
-          | nil => simp at hne
-          | cons _ _ => simp
-        simp at hl
-        exact ⟨by simp; omega, fun _ => rfl⟩
-      | some k => simp at h
-
-theorem rawSpec_some_lt {enc : Encoding} {bs : List UInt8} {ff : Option IoKind} {buf rest : List UInt8}
-    (h : rawSpec enc bs ff = (.ok (some buf), rest)) : rest.length < bs.length := by
-  unfold rawSpec at h
-  cases hu : untilSpec bs ff [] with
-  | mk r rest0 =>
-    rw [hu] at h
-    cases r with
-    | error k => simp at h
-    | ok b0 =>
-      simp only [] at h
-      by_cases he : b0.isEmpty = true
-      · simp [he] at h
-      · have he' : b0.isEmpty = false := by simpa using he
-        have hlt := (untilSpec_ok_lt hu he').1
-        simp only [he, Bool.false_eq_true, if_false] at h
-        by_cases hl : (enc == Encoding.utf16le && endsWithLF b0) = true
-        · simp only [hl, if_true] at h
-          unfold byteSpec at h
-          cases rest0 with
-          | nil => cases ff <;> simp at h
-          | cons b r =>
-            simp at h
-            obtain ⟨_, h2⟩ := h
-            subst h2
-            simp at hlt
-            omega
-        · simp [hl] at h
-          obtain ⟨_, h2⟩ := h
-          subst h2
-          exact hlt
+            rw [ih s' (by rw [hp]; omega), hp, hf']
 
 theorem linesSpecFuel_fuel (enc : Encoding) (ff : Option IoKind) (f1 f2 : Nat) (bs : List UInt8)
     (h1 : bs.length < f1) (h2 : bs.length < f2) :
@@ -369,18 +568,12 @@ theorem linesSpecFuel_fuel (enc : Encoding) (ff : Option IoKind) (f1 f2 : Nat) (
             simp only []
             rw [ih m rest (by omega) (by omega)]
 
-theorem pre_length_le_size (s : Sched) : (Sched.pre s).length ≤ Sched.size s := by
-  induction s with
-  | nil => simp [Sched.pre, Sched.size]
-  | cons e s ih =>
-    cases e <;> simp [Sched.pre, Sched.size, Ev.size] <;> omega
-
 /-- **`readAll` depends on the schedule only through the bytes delivered before the first
 fatal error and that error.** -/
 theorem readAll_eq_spec (enc : Encoding) (s : Sched) :
     readAll enc s = linesSpec enc s.firstFail s.pre := by
   unfold readAll linesSpec
-  rw [readAllFuel_spec]
+  rw [readAllFuel_spec enc _ s (by have := pre_length_le_size s; omega)]
   exact linesSpecFuel_fuel enc _ _ _ _ (by have := pre_length_le_size s; omega) (by omega)
 
 /-- one unfolding of `linesSpec`, free of fuel. -/
@@ -408,19 +601,13 @@ theorem linesSpec_unfold (enc : Encoding) (ff : Option IoKind) (bs : List UInt8)
 
 /-! ### `readBom` -/
 
-/-- the BOM sniffing sees enough: the first non-empty chunk (before any fatal error) has at
-least three bytes, or there is no such chunk. -/
-def bomOk : Sched → Bool
-  | [] => true
-  | .intr :: s => bomOk s
-  | .fail _ :: _ => true
-  | .chunk bs :: s => if bs.length = 0 then bomOk s else decide (3 ≤ bs.length)
-
+/-- `read_bom` on the byte stream: the BOM is looked for in the first three bytes of the stream,
+however they are delivered; fewer than three bytes before a fatal error surface that error. -/
 def bomSpec (bs : List UInt8) (ff : Option IoKind) : Except IoKind Encoding × List UInt8 :=
-  if bs.isEmpty then
+  if bs.length < 3 then
     match ff with
     | some k => (.error k, [])
-    | none => (.ok .utf8, [])
+    | none => (.ok (Encoding.fromBom bs).1, bs.drop (Encoding.fromBom bs).2)
   else (.ok (Encoding.fromBom bs).1, bs.drop (Encoding.fromBom bs).2)
 
 theorem fromBom_cons3 (a b c : UInt8) (t t' : List UInt8) :
@@ -432,37 +619,92 @@ theorem fromBom_le3 (bs : List UInt8) : (Encoding.fromBom bs).2 ≤ 3 := by
   unfold Encoding.fromBom
   split <;> simp
 
+theorem fromBom_le_length (bs : List UInt8) : (Encoding.fromBom bs).2 ≤ bs.length := by
+  unfold Encoding.fromBom
+  split <;> simp
+
 theorem fromBom_append (bs x : List UInt8) (h : 3 ≤ bs.length) :
     Encoding.fromBom (bs ++ x) = Encoding.fromBom bs := by
   match bs, h with
   | a :: b :: c :: t, _ => exact fromBom_cons3 a b c _ _
 
-theorem readBom_spec (s : Sched) (h : bomOk s = true) :
-    (readBom s).1 = (bomSpec s.pre s.firstFail).1 ∧
-    (rdIsOk (readBom s).1 = true →
-      Sched.pre (readBom s).2 = (bomSpec s.pre s.firstFail).2 ∧
-      Sched.firstFail (readBom s).2 = s.firstFail) := by
-  induction s with
-  | nil => simp [readBom, bomSpec, Sched.pre, Sched.firstFail, Encoding.fromBom]
+/-- `Decoder::new`: the encoding, and the reader `Cursor::new(prefix).chain(reader)`. -/
+def readBomPush (s : Sched) : Except IoKind Encoding × Sched :=
+  match readBom s with
+  | (.error k, s') => (.error k, s')
+  | (.ok (enc, pfx), s') => (.ok enc, pushRest pfx s')
+
+theorem readBomLoop_spec (pfx : List UInt8) (s : Sched) (hp : pfx.length < 3) :
+    match readBomLoop pfx s with
+    | (.error k, _) => (bomSpec (pfx ++ s.pre) s.firstFail).1 = .error k
+    | (.ok (enc, lo), s') =>
+      (bomSpec (pfx ++ s.pre) s.firstFail).1 = .ok enc ∧
+      lo ++ Sched.pre s' = (bomSpec (pfx ++ s.pre) s.firstFail).2 ∧
+      Sched.firstFail s' = s.firstFail := by
+  induction s generalizing pfx with
+  | nil =>
+    simp [readBomLoop, finishBom, bomSpec, Sched.pre, Sched.firstFail, hp]
   | cons e s ih =>
     cases e with
-    | intr => simpa [readBom, Sched.pre, Sched.firstFail] using ih (by simpa [bomOk] using h)
-    | fail k => simp [readBom, bomSpec, Sched.pre, Sched.firstFail, rdIsOk]
+    | intr => simpa [readBomLoop, Sched.pre, Sched.firstFail] using ih pfx hp
+    | fail k => simp [readBomLoop, bomSpec, Sched.pre, Sched.firstFail, hp]
     | chunk bs =>
       by_cases h0 : bs.length = 0
       · have : bs = [] := List.eq_nil_of_length_eq_zero h0
         subst this
-        simpa [readBom, Sched.pre, Sched.firstFail] using ih (by simpa [bomOk] using h)
-      · have h3 : 3 ≤ bs.length := by simpa [bomOk, h0] using h
-        have hne : (bs ++ Sched.pre s).isEmpty = false := by
-          cases bs with
-          | nil => simp at h0
-          | cons _ _ => simp
-        have hle := fromBom_le3 bs
-        simp only [readBom, h0, if_false, ge_iff_le, h3, if_true, Sched.pre, Sched.firstFail, bomSpec, hne,
-          Bool.false_eq_true, fromBom_append bs _ h3, pre_pushRest, firstFail_pushRest]
-        refine ⟨trivial, fun _ => ⟨?_, trivial⟩⟩
-        rw [List.drop_append_of_le_length (by omega)]
+        simpa [readBomLoop, Sched.pre, Sched.firstFail] using ih pfx hp
+      · simp only [readBomLoop, h0, if_false, Sched.pre, Sched.firstFail]
+        by_cases hfast : (pfx.isEmpty && decide (bs.length ≥ 3)) = true
+        · simp only [hfast, if_true]
+          simp only [Bool.and_eq_true, decide_eq_true_eq, List.isEmpty_iff] at hfast
+          obtain ⟨he, h3⟩ := hfast
+          subst he
+          have hl : ¬ (bs ++ Sched.pre s).length < 3 := by simp; omega
+          have hle := fromBom_le3 bs
+          simp only [List.nil_append, bomSpec, hl, if_false, fromBom_append bs _ h3, pre_pushRest,
+            firstFail_pushRest, true_and, and_true]
+          rw [List.drop_append_of_le_length (by omega)]
+        · simp only [hfast, Bool.false_eq_true, if_false]
+          have hlen : (pfx ++ bs.take (min bs.length (3 - pfx.length))).length = pfx.length + min bs.length (3 - pfx.length) := by
+            simp only [List.length_append, List.length_take]; omega
+          by_cases h3 : (pfx ++ bs.take (min bs.length (3 - pfx.length))).length = 3
+          · simp only [h3, if_true, finishBom]
+            have hB : pfx ++ (bs ++ Sched.pre s) =
+                (pfx ++ bs.take (min bs.length (3 - pfx.length))) ++
+                  (bs.drop (min bs.length (3 - pfx.length)) ++ Sched.pre s) := by
+              simp only [List.append_assoc]
+              rw [← List.append_assoc (bs.take _), List.take_append_drop]
+            rw [hB]
+            generalize pfx ++ bs.take (min bs.length (3 - pfx.length)) = P at h3
+            generalize bs.drop (min bs.length (3 - pfx.length)) = R
+            have hl : ¬ (P ++ (R ++ Sched.pre s)).length < 3 := by
+              rw [List.length_append, h3]; omega
+            have hle := fromBom_le3 P
+            simp only [bomSpec, hl, if_false, pre_pushRest, firstFail_pushRest, fromBom_append P _ (Nat.le_of_eq h3.symm)]
+            refine ⟨trivial, ?_, trivial⟩
+            rw [List.drop_append_of_le_length (by omega)]
+          · simp only [h3, if_false]
+            have ht : min bs.length (3 - pfx.length) = bs.length := by omega
+            rw [ht, List.take_length]
+            have := ih (pfx ++ bs) (by simp only [List.length_append]; rw [ht] at hlen; rw [ht, List.take_length] at h3; simp only [List.length_append] at h3; omega)
+            simpa only [List.append_assoc] using this
+
+theorem readBomPush_spec (s : Sched) :
+    SpecRel s.firstFail (readBomPush s) (bomSpec s.pre s.firstFail) := by
+  have := readBomLoop_spec [] s (by simp)
+  unfold readBomPush readBom
+  cases hb : readBomLoop [] s with
+  | mk r s' =>
+    rw [hb] at this
+    cases r with
+    | error k =>
+      simp only [List.nil_append] at this
+      refine ⟨this.symm, fun h => by simp [rdIsOk] at h⟩
+    | ok p =>
+      obtain ⟨enc, lo⟩ := p
+      simp only [List.nil_append] at this
+      obtain ⟨a, b, c⟩ := this
+      exact ⟨a.symm, fun _ => ⟨by rw [pre_pushRest]; exact b, by rw [firstFail_pushRest]; exact c⟩⟩
 
 /-! ### `Interrupted` -/
 
@@ -486,21 +728,27 @@ theorem dropIntr_pushRest (r : List UInt8) (s : Sched) :
     dropIntr (pushRest r s) = pushRest r (dropIntr s) := by
   cases r <;> simp [pushRest, dropIntr]
 
-theorem readBom_dropIntr (s : Sched) :
-    readBom (dropIntr s) = ((readBom s).1, dropIntr (readBom s).2) := by
-  induction s with
-  | nil => simp [readBom, dropIntr]
+theorem readBomLoop_dropIntr (pfx : List UInt8) (s : Sched) :
+    readBomLoop pfx (dropIntr s) = ((readBomLoop pfx s).1, dropIntr (readBomLoop pfx s).2) := by
+  induction s generalizing pfx with
+  | nil => simp [readBomLoop, dropIntr]
   | cons e s ih =>
     cases e with
-    | intr => simpa [readBom, dropIntr] using ih
-    | fail k => simp [readBom, dropIntr]
+    | intr => simpa [readBomLoop, dropIntr] using ih pfx
+    | fail k => simp [readBomLoop, dropIntr]
     | chunk bs =>
-      simp only [readBom, dropIntr]
+      simp only [readBomLoop, dropIntr]
       by_cases h0 : bs.length = 0
       · simp [h0, ih]
-      · by_cases h3 : bs.length ≥ 3
-        · simp [h0, h3, dropIntr_pushRest]
-        · simp [h0, h3, ih]
+      · simp only [h0, if_false]
+        split
+        · simp [dropIntr_pushRest]
+        · split
+          · simp [dropIntr_pushRest]
+          · exact ih _
+
+theorem readBom_dropIntr (s : Sched) :
+    readBom (dropIntr s) = ((readBom s).1, dropIntr (readBom s).2) := readBomLoop_dropIntr [] s
 
 theorem readUntil_dropIntr (s : Sched) (acc : List UInt8) :
     readUntil (dropIntr s) acc = ((readUntil s acc).1, dropIntr (readUntil s acc).2) := by
@@ -515,35 +763,36 @@ theorem readUntil_dropIntr (s : Sched) (acc : List UInt8) :
       cases hs : splitAtLF bs with
       | mk p o => cases o <;> simp [dropIntr_pushRest, ih]
 
-theorem readByte_dropIntr (s : Sched) :
-    readByte (dropIntr s) = ((readByte s).1, dropIntr (readByte s).2) := by
+theorem nextByte_dropIntr (s : Sched) :
+    nextByte (dropIntr s) = ((nextByte s).1, dropIntr (nextByte s).2) := by
   induction s with
-  | nil => simp [readByte, dropIntr]
+  | nil => simp [nextByte, dropIntr]
   | cons e s ih =>
     cases e with
-    | intr => simpa [readByte, dropIntr] using ih
-    | fail k => simp [readByte, dropIntr]
-    | chunk bs => cases bs <;> simp [readByte, dropIntr, dropIntr_pushRest, ih]
+    | intr => simpa [nextByte, dropIntr] using ih
+    | fail k => simp [nextByte, dropIntr]
+    | chunk bs => cases bs <;> simp [nextByte, dropIntr, dropIntr_pushRest, ih]
 
 /-! ### `decodeSched` through the specifications -/
 
 theorem decodeSched_eq {σ : Type} (D : LineDecoder σ) (s : Sched) :
     decodeSched D s =
-      match readBom s with
+      match readBomPush s with
       | (.error k, _) => .error k
       | (.ok enc, s1) =>
         match linesSpec enc s1.firstFail s1.pre with
         | (_, some k) => .error k
         | (ls, none) => .ok (frame D ls) := by
-  unfold decodeSched
+  unfold decodeSched readBomPush
   cases readBom s with
   | mk r s1 =>
     cases r with
     | error k => rfl
-    | ok enc => simp only [readAll_eq_spec]; rfl
+    | ok p =>
+      obtain ⟨enc, pfx⟩ := p
+      simp only [readAll_eq_spec]; rfl
 
-/-- `decode` on a byte stream `bs` followed by the fatal error `ff` (or end of input),
-when the BOM sniffing sees enough. -/
+/-- `decode` on a byte stream `bs` followed by the fatal error `ff` (or by end of input). -/
 def decodeSpec {σ : Type} (D : LineDecoder σ) (bs : List UInt8) (ff : Option IoKind) : Except IoKind σ :=
   match bomSpec bs ff with
   | (.error k, _) => .error k
@@ -552,12 +801,14 @@ def decodeSpec {σ : Type} (D : LineDecoder σ) (bs : List UInt8) (ff : Option I
     | (_, some k) => .error k
     | (ls, none) => .ok (frame D ls)
 
-theorem decodeSched_spec {σ : Type} (D : LineDecoder σ) (s : Sched) (h : bomOk s = true) :
+/-- **`decode` depends on the schedule only through the bytes delivered before the first fatal
+error and that error** — no condition on how the bytes are cut into chunks. -/
+theorem decodeSched_spec {σ : Type} (D : LineDecoder σ) (s : Sched) :
     decodeSched D s = decodeSpec D s.pre s.firstFail := by
   rw [decodeSched_eq]
-  obtain ⟨h1, h2⟩ := readBom_spec s h
+  obtain ⟨h1, h2⟩ := readBomPush_spec s
   unfold decodeSpec
-  cases hb : readBom s with
+  cases hb : readBomPush s with
   | mk r s1 =>
     cases hq : bomSpec s.pre s.firstFail with
     | mk r2 rest =>
